@@ -77,6 +77,8 @@ def gen_wgroupby_op(rng, timed):
 
 
 def gen_cases(rng, tier):
+    for _ in range(40 if tier == 'quick' else 400):
+        yield E.gen_intlabel_case(rng, True)
     n_w, n_g = (10, 10) if tier == 'quick' else (11, 11)
     for ti in range(n_tables(tier)):
         tab = E.gen_table(rng, nan=(ti % 2 == 1), time=(ti % 4 < 2))
@@ -99,11 +101,17 @@ def _sample(case, compared):
     return {'case': case, 'observed': 'compared with pandas on the window after %d non-empty batches, all equal' % compared}
 
 
+def _check(case, ctx):
+    if case.get('intlabel'):
+        return E.check_intlabel(case, ctx)
+    return E.check_prefix(case, ctx)
+
+
 def run_shard(seed, tier, shard, nshards):
-    return E.drive(PID, seed, tier, shard, nshards, lambda rng: gen_cases(rng, tier), E.check_prefix, sample_fn=_sample)
+    return E.drive(PID, seed, tier, shard, nshards, lambda rng: gen_cases(rng, tier), _check, sample_fn=_sample)
 
 
 def replay(case):
     ctx = E.Ctx(PID)
-    E.check_prefix(case, ctx)
+    _check(case, ctx)
     return ctx.violations()
